@@ -11,6 +11,8 @@ CONSTANTS
   MaxAt = 2
   ExpmDopModes <- Pinned
   Solve2Modes <- Solve2OK
+  Progbars <- PbOff
+  Progbar0Modes <- PbOK
   PrintCases = FALSE
 INVARIANT ConservedInv
 CHECK_DEADLOCK FALSE
